@@ -78,7 +78,13 @@ func (mn *mapNIncr[A, B]) AddInput(i Incr[A]) error {
 	if mn.n.height != HeightUnset {
 		// if we're already part of the graph, we have
 		// to tell the graph to update our parent<>child metadata
-		return GraphForNode(mn).addChild(mn, i)
+		if err := GraphForNode(mn).addChild(mn, i); err != nil {
+			return err
+		}
+		// the node now has an input its value does not reflect; addChild queues it only
+		// when the new input is newer than the node, which an input that had already
+		// been computed is not.
+		GraphForNode(mn).SetStale(mn)
 	}
 	return nil
 }
